@@ -291,3 +291,100 @@ func Par(c *mc.Ctx, sub string, n int, f func(w *mc.W, i int)) {
 		f(w, i)
 	})
 }
+
+// Seam is one member of the Mul121666 carry-seam alphabet.
+type Seam struct {
+	U     []byte // 32-byte u string with 4u = W (mod p)
+	Limb  int    // radix-2^51 digit of W that holds the seam value (1..4)
+	J     int    // the seam value is floor(J*2^64/121666) + E
+	E     int
+	Lower string // "max", "carry=r", "carry=r-1": the digit below the seam
+	Fill  string // "zero" or "mid": the remaining digits
+	Hot   bool   // by construction the 64-bit low word of digit*121666 plus the incoming carry wraps 2^64
+}
+
+// Mul121666Seams is derived from the constant 121666 = (A+2)/4 of the
+// Montgomery ladder, the 64-bit word size and the radix 2^51 of the 64-bit
+// field backend.  The first ladder step of X25519(k, u) (bit 254 of a clamped
+// scalar is always set) multiplies t6 = (u+1)^2 - (u-1)^2 = 4u by 121666.  For
+// W = 4u mod p >= 2^13 the weakly reduced t6 is the integer W itself, and its
+// limbs are the radix-2^51 digits of W (digits >= 320 are represented
+// uniquely).  A digit a = floor(j*2^64/121666), j = 1..14 (all j with a < 2^51),
+// makes the low 64-bit word of a*121666 equal to 2^64 - r, r = j*2^64 mod 121666,
+// so that the carry coming from the digit below (at most 121665, reached for
+// the digit 2^51-1) wraps the low word exactly when carry >= r.  Members, for
+// every limb 1..4 and every j: seam digit with lower digit 2^51-1 (hot), with
+// the smallest lower digit whose carry is r (hot boundary) and the one below
+// it (cold boundary), each with the other digits zero and with a mid-range
+// filler, and bit 255 set on the first; with full the neighbours a-1, a+1 too
+// (cold).  u = W/4 mod p, so u is in general a full-size field element.
+func Mul121666Seams(full bool) []Seam {
+	const c = 121666
+	two51 := pow2(51)
+	two64 := pow2(64)
+	inv4 := new(big.Int).ModInverse(big.NewInt(4), ref.P)
+	mid := new(big.Int).Add(pow2(50), big.NewInt(0x1555555555))
+	var out []Seam
+	seen := map[string]bool{}
+	emit := func(w *big.Int, sm Seam, high bool) {
+		u := ref.FMul(w, inv4)
+		b := ref.LE32(u)
+		if high {
+			b[31] |= 0x80
+		}
+		if seen[string(b)] {
+			return
+		}
+		seen[string(b)] = true
+		sm.U = b
+		out = append(out, sm)
+	}
+	for limb := 1; limb <= 4; limb++ {
+		for j := 1; ; j++ {
+			jw := new(big.Int).Mul(big.NewInt(int64(j)), two64)
+			a, r := new(big.Int).QuoRem(jw, big.NewInt(c), new(big.Int))
+			if a.Cmp(two51) >= 0 {
+				break
+			}
+			// smallest lower digit d with floor(d*c / 2^51) = r: d = ceil(r*2^51/c)
+			dr := new(big.Int).Mul(r, two51)
+			dr.Add(dr, big.NewInt(c-1))
+			dr.Div(dr, big.NewInt(c))
+			build := func(seam, lower, fill *big.Int, fillBelow bool) *big.Int {
+				w := new(big.Int)
+				for i := 4; i >= 0; i-- {
+					w.Lsh(w, 51)
+					switch {
+					case i == limb:
+						w.Add(w, seam)
+					case i == limb-1:
+						w.Add(w, lower)
+					case i < limb-1 && !fillBelow:
+						// for the boundary variants the digits below the lower one stay zero, so that
+						// the lower digit's own incoming carry is zero
+					default:
+						w.Add(w, fill)
+					}
+				}
+				return w
+			}
+			max := new(big.Int).Sub(two51, big.NewInt(1))
+			for _, f := range []struct {
+				name string
+				v    *big.Int
+			}{{"zero", big.NewInt(0)}, {"mid", mid}} {
+				emit(build(a, max, f.v, true), Seam{Limb: limb, J: j, Lower: "max", Fill: f.name, Hot: true}, false)
+				emit(build(a, dr, f.v, false), Seam{Limb: limb, J: j, Lower: "carry=r", Fill: f.name, Hot: true}, false)
+				emit(build(a, new(big.Int).Sub(dr, big.NewInt(1)), f.v, false), Seam{Limb: limb, J: j, Lower: "carry=r-1", Fill: f.name}, false)
+			}
+			emit(build(a, max, big.NewInt(0), true), Seam{Limb: limb, J: j, Lower: "max", Fill: "zero", Hot: true}, true)
+			if full {
+				for _, e := range []int64{-1, 1} {
+					emit(build(new(big.Int).Add(a, big.NewInt(e)), max, big.NewInt(0), true), Seam{Limb: limb, J: j, E: int(e), Lower: "max", Fill: "zero"}, false)
+					emit(build(new(big.Int).Add(a, big.NewInt(e)), max, mid, true), Seam{Limb: limb, J: j, E: int(e), Lower: "max", Fill: "mid"}, false)
+				}
+			}
+		}
+	}
+	return out
+}
